@@ -281,6 +281,7 @@ func builtinIntrinsics() map[string]Intrinsic {
 		I[n] = nop
 	}
 	concIntrinsics(I)
+	reflectIntrinsics(I)
 	// sync.Pool: LIFO store (maximal reuse: the case in which stale state of a recycled object matters)
 	I["(*sync.Pool).Get"] = func(m *Machine, fn *ssa.Function, a []Value) Value {
 		p := m.ptrOf(a[0])
